@@ -127,6 +127,10 @@ impl Property for C15 {
         }
     }
 
+    fn shrink_iters(&self) -> u32 {
+        3000
+    }
+
     fn tape_len(&self) -> usize {
         700
     }
